@@ -23,7 +23,7 @@ D13_CASE = ("vsock out 1 576 1048576 32768 1048576 1 5 10000000000 1 1 100 1 7 1
             "W1056,0 P M2,1,102,1048576,5,0,0,- W1584,0 P T8000000000 P M2,1,103,528,6,0,0,- P DR DW P")
 
 PREDICATES = ["c17_synack_ok", "c17_fin_after_data_noerr", "c17_fin_number_step_ok", "c17_fin_seq_ok",
-              "c17_peer_fin_ok", "c17_reset_ok", "c17_reset_trace_ok"]
+              "c17_peer_fin_ok2", "c17_fin_covers_data_ok", "c17_reset_ok", "c17_reset_trace_ok"]
 
 
 def gen_teardown(rng, n):
@@ -83,8 +83,28 @@ def gen_teardown(rng, n):
             ops.append(msg(0, peer_next, (our_next - 1) % 65536, plen=rng.choice([1, 100, 528])))
             peer_next += 1
             ops.append("P")
-        # teardown
-        for _ in range(rng.range(1, 4)):
+        # teardown, scripted (a third of the cases): we close first, our FIN is acknowledged (or not: FinWait2 / FinWait1),
+        # then the peer's FIN arrives OUT of sequence - its last data segment was lost or overtaken - with or without the
+        # acknowledgement of our FIN, then (sometimes) the missing data and the FIN again, in sequence (seeded C03-b, C04-b)
+        scripted = rng.below(3) == 0
+        if scripted:
+            ops += rng.choice([["H"], ["DR", "DW"], ["H"]]); ops.append("P")
+            fin_acked = rng.below(3) > 0
+            if fin_acked:
+                ops.append(msg(2, peer_next, our_next % 65536)); ops.append("P")          # FinWait2
+            gap = rng.range(1, 3)
+            ops.append(msg(1, peer_next + gap, rng.choice([our_next % 65536, (our_next - 1) % 65536, our_next % 65536])))
+            ops.append(rng.choice(["P", "PP"]))
+            if rng.below(2):
+                for k in range(gap):
+                    ops.append(msg(0, peer_next + k, our_next % 65536, plen=rng.choice([1, 100])))
+                ops.append("P")
+                ops.append(msg(1, peer_next + gap, our_next % 65536)); ops.append("P")
+            if rng.below(2):
+                ops.append("R1000")
+            if rng.below(3) == 0:
+                adv(rng.choice([1_000_000_000, 3_500_000_000])); ops.append("P")
+        for _ in range(0 if scripted else rng.range(1, 4)):
             c = rng.below(10)
             if c == 0:
                 ops.append(msg(1, peer_next, (our_next - 1) % 65536)); peer_next += 1
